@@ -38,8 +38,9 @@ class VBool(V):
 
 
 class VStr(V):
-    def __init__(self, t):
+    def __init__(self, t, b=False):
         self.t = z3.StringVal(t) if isinstance(t, str) else t
+        self.b = b          # a bytes object (one character per byte); str otherwise
 
     def lit(self):
         if z3.is_string_value(self.t):
@@ -149,6 +150,8 @@ def fresh(kind, base='v'):
         return VBool(z3.Bool(fresh_name(base)))
     if kind == 'str':
         return VStr(z3.String(fresh_name(base)))
+    if kind == 'bytes':
+        return VStr(z3.String(fresh_name(base)), b=True)
     if kind == 'none':
         return VNONE
     if kind == 'pos':
@@ -182,7 +185,7 @@ def kind_of(v):
     if isinstance(v, VBool):
         return 'bool'
     if isinstance(v, VStr):
-        return 'str'
+        return 'bytes' if getattr(v, 'b', False) else 'str'
     if isinstance(v, VNoneT):
         return 'none'
     if isinstance(v, VTuple):
